@@ -10,14 +10,30 @@ from .misc import TOut
 F = "pipefunc/_pipeline/_base.py"
 SS = TSeq(TStr)
 DRes = TDict(TOut, TObj)
-PipeFuncOutView = TRec("PipeFuncOutView", {"output_name": TOut, "output_picker": TObj})
+DSO = TDict(TStr, TObj)
+# what the call path reads of a PipeFunc / of a Pipeline (one record sort each, shared by all contracts below)
+PipeFuncV = TRec("PipeFuncV", {"output_name": TOut, "output_picker": TObj, "parameters": SS, "_bound": DSO, "cache": TBool,
+                               "fid": TObj})
+PipeFuncOutView = PipeFuncV
 
 
 class _PF:
     """The two attributes of a PipeFunc that _update_all_results reads (real objects on the bounded rung)."""
 
-    def __init__(self, output_name, picker):
+    def __init__(self, output_name, picker, parameters=(), bound=None, cache=False, fid=None):
         self.output_name, self.output_picker = output_name, picker
+        self.parameters, self._bound, self.cache = tuple(parameters), dict(bound or {}), cache
+        self.fid = fid if fid is not None else f"f{output_name!r}"
+        self.__name__ = str(self.fid)
+
+    def __call__(self, **kwargs):  # the user's function: its result names what it received
+        return ("called", self.fid, tuple(sorted(kwargs.items(), key=lambda kv: kv[0])))
+
+    def __deepcopy__(self, memo):
+        return self  # (immutable for the purposes of these checks; identity is compared through fid)
+
+    def __repr__(self):
+        return f"PF{self.output_name!r}{self.parameters!r}"
 
 
 def tagging_picker(r, name):
@@ -25,7 +41,7 @@ def tagging_picker(r, name):
 
 
 picker = Contract(
-    f"{F}::PipeFuncOutView.output_picker", params={"self": PipeFuncOutView, "output": TObj, "name": TStr}, returns=TObj,
+    f"{F}::PipeFuncV.output_picker", params={"self": PipeFuncV, "output": TObj, "name": TStr}, returns=TObj,
     trusted=True, pure=True, note="the function's output_picker: deterministic in (result, name); user code",
 )
 lazy_node = Contract(
@@ -36,7 +52,7 @@ lazy_node = Contract(
 
 def _pick(S, a, name):
     if S.symbolic:
-        return S.uf("fn:PipeFuncOutView.output_picker", TObj, a.func, a.r, name)
+        return S.uf("fn:PipeFuncV.output_picker", TObj, a.func, a.r, name)
     return a.func.output_picker(a.r, name)
 
 
@@ -107,19 +123,21 @@ def gen(rng, tier):
 # ---- Pipeline._get_func_args: the resolution order of C02 ---------------------------------------------------------------
 from pyvc.types import TOpt, TSet  # noqa: E402
 
-DSO = TDict(TStr, TObj)
-PipelineArgsView = TRec("PipelineArgsView", {"output_to_func": TDict(TOut, TObj), "defaults": DSO})
-PipeFuncArgsView = TRec("PipeFuncArgsView", {"parameters": SS, "_bound": DSO})
+PipelineV = TRec("PipelineV", {"output_to_func": TDict(TOut, PipeFuncV), "defaults": DSO, "lazy": TBool})
+PipelineArgsView = PipelineV
+PipeFuncArgsView = PipeFuncV
 UsedT = TSet(TOpt(TStr))
 
 
 def _upstream(S, a, arg):
     """The value the pipeline computes for the upstream output `arg` under these keyword arguments (spec function)."""
+    if not S.symbolic and arg in getattr(a, "all_results", {}):
+        return a.all_results[arg]  # bounded rung: already computed in this evaluation
     return S.uf("spec:upstream-value", TObj, a.self, arg, a.flat_scope_kwargs)
 
 
 run_upstream = Contract(
-    f"{F}::PipelineArgsView._run",
+    f"{F}::PipelineV._run",
     params={"self": PipelineArgsView, "output_name": TOut, "flat_scope_kwargs": DSO, "all_results": DRes,
             "full_output": TBool, "used_parameters": UsedT},
     returns=TObj, trusted=True, pure=False, modifies=("all_results", "used_parameters"),
@@ -194,8 +212,8 @@ CONC_IMPL["spec:upstream-value"] = lambda self, arg, kwargs: ("upstream-value-of
 class _FakePipeline:
     """What _get_func_args reads of a Pipeline, with a _run that returns a value naming the upstream output."""
 
-    def __init__(self, output_to_func, defaults):
-        self.output_to_func, self.defaults = output_to_func, defaults
+    def __init__(self, output_to_func, defaults, lazy=False):
+        self.output_to_func, self.defaults, self.lazy = output_to_func, defaults, lazy
         self.run_calls = []
 
     def _run(self, *, output_name, flat_scope_kwargs, all_results, full_output, used_parameters):
@@ -204,12 +222,8 @@ class _FakePipeline:
         return CONC_IMPL["spec:upstream-value"](self, output_name, flat_scope_kwargs)
 
 
-class _FakeFunc:
-    def __init__(self, parameters, bound):
-        self.parameters, self._bound = tuple(parameters), bound
-
-    def __repr__(self):
-        return f"f{self.parameters}"
+def _FakeFunc(parameters, bound):
+    return _PF("out", tagging_picker, parameters, bound)
 
 
 def gfa_gen(rng, tier):
@@ -217,9 +231,153 @@ def gfa_gen(rng, tier):
     for _ in range(600 if tier == "quick" else 6000):
         params = rng.sample(names, rng.randint(0, 4))
         pick = lambda p: {k: f"{p}:{k}" for k in names if rng.random() < 0.35}  # noqa: E731
-        o2f = {k: "producer" for k in names if rng.random() < 0.3}
+        o2f = {k: _PF(k, tagging_picker) for k in names if rng.random() < 0.3}
         if rng.random() < 0.2:
-            o2f[("p", "q")] = "producer2"
+            o2f[("p", "q")] = _PF(("p", "q"), tagging_picker)
         yield {"self": _FakePipeline(o2f, pick("default")), "func": _FakeFunc(params, pick("bound")),
                "flat_scope_kwargs": pick("kwarg"), "all_results": {}, "full_output": rng.random() < 0.5,
                "used_parameters": set()}
+
+
+# ---- Pipeline._run without a cache: one evaluation computes every needed output once ---------------------------------------
+from pyvc.types import TReal  # noqa: E402
+
+PipelineRunV = PipelineV
+
+current_cache = Contract(f"{F}::PipelineV._current_cache", params={"self": PipelineV}, returns=TOpt(TObj), trusted=True,
+                         pure=True, note="the cache object in use, or None")
+task_graph = Contract("pipefunc/lazy.py::task_graph", params={}, returns=TOpt(TObj), trusted=True, pure=True,
+                      note="the active task graph of construct_dag(), or None (global state, read-only here)")
+root_args = Contract(f"{F}::PipelineV.root_args", params={"self": PipelineV, "output_name": TOut}, returns=SS, trusted=True,
+                     pure=True, note="networkx ancestors of the output")
+perf_counter = Contract("time::time.perf_counter", params={}, returns=TReal, trusted=True, pure=False, static=True)
+execute_func = Contract(
+    f"{F}::_execute_func", params={"func": PipeFuncV, "func_args": DSO, "lazy": TBool}, returns=TObj, trusted=True, pure=True,
+    note="calls the user's function with the resolved arguments (or defers the call in lazy mode): deterministic in "
+         "(function, arguments); its failures are C13's business",
+)
+
+
+def _exec(S, f, args, lazy):
+    return S.uf("fn:_execute_func", TObj, f, args, lazy)
+
+
+def _no_cache(S, a):
+    return S.and_(S.is_none(S.uf("fn:PipelineV._current_cache", TOpt(TObj), a.self)),
+                  S.is_none(S.uf("fn:task_graph", TOpt(TObj)))) if S.symbolic else True
+
+
+def _run_ensures(S, a, r, post):
+    R0, R1 = a.all_results, post.all_results
+    memo = S.has(R0, a.output_name)
+    return {
+        "already computed in this evaluation: returned as it is, nothing is executed or changed": S.implies(memo, lambda: S.and_(
+            S.eq(r, R0[a.output_name]), S.eq(R1, R0) if S.symbolic else True)),
+        "otherwise the producer's entry is made and returned": S.implies(S.not_(memo), lambda: S.and_(
+            S.has(R1, a.output_name), lambda: S.eq(r, R1[a.output_name]))),
+        "it is the producer's result for the resolved arguments (one element of it for a tuple output)":
+            S.implies(S.not_(memo), lambda: _run_value(S, a, r, post)),
+    }
+
+
+def _run_value(S, a, r, post):
+    f = a.self.output_to_func[a.output_name]
+    if S.symbolic:
+        if not hasattr(post._locals, "func_args"):
+            return True  # an exit before the arguments were resolved (the memo path: the implication holds trivially)
+        args = post._locals.func_args  # ghost witness: the dict _get_func_args returned (its contract constrains it)
+        ns = _with_func(a, f)
+        res = _exec(S, f, args, a.self.lazy)
+        picked = S.ite(S.and_(S.is_tag(f.output_name, "tuple"), S.not_(S.is_tag(a.output_name, "tuple"))),
+                       lambda: S.uf("fn:PipeFuncV.output_picker", TObj, f, res, S.untag(a.output_name, "str")), lambda: res)
+        return S.and_(
+            S.forall_key(TStr, lambda k: S.has(args, k) == S.contains(f.parameters, k)),
+            S.forall(0, S.len(f.parameters), lambda i: S.eq(args[f.parameters[i]], _resolved(S, ns, f.parameters[i]))),
+            S.implies(S.not_(a.self.lazy), lambda: S.eq(r, picked)))
+    # bounded rung: the fake function tags its result with the arguments it received
+    want_args = {p_: _resolved(S, _with_func(a, f), p_) for p_ in f.parameters}
+    res = ("called", f.fid, tuple(sorted(want_args.items(), key=lambda kv: kv[0])))
+    if isinstance(f.output_name, tuple) and not isinstance(a.output_name, tuple):
+        res = f.output_picker(res, a.output_name)
+    return a.self.lazy or r == res
+
+
+run = Contract(
+    f"{F}::Pipeline._run",
+    params={"self": PipelineV, "output_name": TOut, "flat_scope_kwargs": DSO, "all_results": DRes, "full_output": TBool,
+            "used_parameters": UsedT},
+    returns=TObj, modifies=("all_results", "used_parameters"), pure=False,
+    requires=lambda S, a: {
+        "no cache and no task graph (the cached path is C09's, bounded)": _no_cache(S, a),
+        "a function is registered under each of its output names": S.forall_key(TOut, lambda k: S.implies(
+            S.has(a.self.output_to_func, k), lambda: S.or_(
+                S.eq(a.self.output_to_func[k].output_name, k),
+                lambda: S.and_(S.is_tag(k, "str"), S.is_tag(a.self.output_to_func[k].output_name, "tuple"),
+                               lambda: S.contains(S.untag(a.self.output_to_func[k].output_name, "tuple"), S.untag(k, "str"))))),
+            domain=() if S.symbolic else list(a.self.output_to_func)),
+    },
+    raises=[("KeyError", lambda S, a: S.and_(S.not_(S.has(a.all_results, a.output_name)),
+                                             S.not_(S.has(a.self.output_to_func, a.output_name)))),
+            ("ValueError", lambda S, a: S.and_(
+                S.not_(S.has(a.all_results, a.output_name)), S.has(a.self.output_to_func, a.output_name),
+                lambda: S.exists(0, S.len(a.self.output_to_func[a.output_name].parameters), lambda i: S.not_(_resolvable(
+                    S, _with_func(a, a.self.output_to_func[a.output_name]), a.self.output_to_func[a.output_name].parameters[i])))))],
+    ensures=_run_ensures,
+)
+
+
+def _with_func(a, f):
+    from types import SimpleNamespace
+    return SimpleNamespace(self=a.self, func=f, flat_scope_kwargs=a.flat_scope_kwargs, all_results=a.all_results)
+
+
+ALL += [current_cache, task_graph, root_args, perf_counter, execute_func, run]
+
+
+def registry_entries() -> dict:
+    """name -> contract, incl. the names under which methods are looked up through the record sorts."""
+    reg = {**{c.short: c for c in ALL}, **{c.name: c for c in ALL}}
+    reg["PipelineV._get_func_args"] = get_func_args
+    reg["PipelineV._run"] = run_upstream  # (inside _get_func_args the recursive call is the assumed contract)
+    return reg
+
+
+class _RunPipeline:
+    """A minimal object on which the real Pipeline._run / _get_func_args run: no cache, no task graph."""
+
+    def __init__(self, output_to_func, defaults, lazy=False):
+        from pipefunc._pipeline._base import Pipeline
+        self.output_to_func, self.defaults, self.lazy, self.cache = output_to_func, defaults, lazy, None
+        self._run = Pipeline._run.__get__(self)
+        self._get_func_args = Pipeline._get_func_args.__get__(self)
+
+    def _current_cache(self):
+        return None
+
+    def root_args(self, output_name):
+        return ()
+
+    def __deepcopy__(self, memo):
+        import copy
+        return _RunPipeline(dict(self.output_to_func), copy.deepcopy(self.defaults), self.lazy)
+
+
+def run_gen(rng, tier):
+    names = ["x", "y", "z", "u"]
+    for _ in range(500 if tier == "quick" else 5000):
+        pick = lambda p, pr=0.35: {k: f"{p}:{k}" for k in names if rng.random() < pr}  # noqa: E731
+        multi = rng.random() < 0.4
+        out = ("o1", "o2") if multi else "o1"
+        f = _PF(out, tagging_picker, rng.sample(names, rng.randint(0, 3)), pick("bound", 0.2), fid="F")
+        o2f = {out: f}
+        if multi:
+            o2f.update({"o1": f, "o2": f})
+        ups = [k for k in names if rng.random() < 0.3]
+        for k in ups:
+            o2f[k] = _PF(k, tagging_picker, (), {}, fid=f"U{k}")
+        all_results = {k: f"computed:{k}" for k in ups}  # upstream outputs already computed in this evaluation
+        if rng.random() < 0.25:
+            all_results[rng.choice(["o1", out])] = "memo"
+        req = rng.choice(["o1", "o2"]) if multi and rng.random() < 0.7 else (out if rng.random() < 0.9 else "nope")
+        yield {"self": _RunPipeline(o2f, pick("default")), "output_name": req, "flat_scope_kwargs": pick("kwarg"),
+               "all_results": all_results, "full_output": rng.random() < 0.5, "used_parameters": set()}
